@@ -36,3 +36,9 @@ man = {"version": 1, "setup_cmd": "./setup.sh",
        "notes": "See DESIGN.md. ./check <ID> --tier quick|thorough [--seed N]; VERIF_SEED / VERIF_TIER honoured. Exit 0 ok, 1 VIOLATION, 2 tool error."}
 json.dump(man, open(os.path.join(ROOT, "MANIFEST.json"), "w"), indent=1)
 print("claimed:", claimed)
+# keep baseline/anchors.json (used by ./check's escalation pass) in step with props.d 'files' — only when /repo is clean
+import subprocess
+if subprocess.run(["git", "-C", "/repo", "status", "--porcelain"], stdout=subprocess.PIPE, text=True).stdout.strip() == "":
+    subprocess.run([os.path.join(ROOT, "check"), "--write-baseline"])
+else:
+    print("WARNING: /repo has uncommitted changes; baseline/anchors.json not rewritten")
